@@ -50,7 +50,7 @@ def run_tlc(module, cfg=None, *, workers=None, env=None, timeout=1800, simulate=
     metadir = os.path.join(OUT, "meta", tag + "-" + str(os.getpid()))
     shutil.rmtree(metadir, ignore_errors=True)
     os.makedirs(metadir, exist_ok=True)
-    java = ["java", "-XX:+UseParallelGC"]
+    java = ["java", "-XX:+UseParallelGC", "-Xss256m"]
     if heap:
         java.append("-Xmx" + heap)
     if dfs_queue:
